@@ -20,8 +20,8 @@ Inductive cfile := Fai | Agp.
 Definition cfile_eqb (a b : cfile) : bool :=
   match a, b with Fai, Fai => true | Agp, Agp => true | _, _ => false end.
 
-Record payload := mkPayload { p_content : Z; p_written : Z; p_total : Z; p_stamp : Z }.
-Definition complete (p : payload) : bool := p_written p =? p_total p.
+Record payload := mkPayload { p_content : Z; p_written : Z; p_complete : bool; p_stamp : Z }.
+Definition complete (p : payload) : bool := p_complete p.
 
 (* what a process holds after loading / indexing one of the two structures *)
 Inductive held := HNone | HGood (content : Z) | HPartial (content : Z).
@@ -34,8 +34,7 @@ Inductive pc :=
   | PIndexRead                   (* index_fasta_file opens and reads the FASTA *)
   | PWarnExists (f : cfile)      (* write_*: "if file.exists(): warn" *)
   | PWriteOpen (f : cfile)       (* open the cache (or its temporary) for writing *)
-  | PWriteBlocks (f : cfile) (nleft : Z)
-  | PWriteClose (f : cfile)
+  | PWriteBlocks (f : cfile)     (* any number of block writes, then close *)
   | PReplace (f : cfile)         (* os.replace(tmp, file)  -- atomic protocol only *)
   | PDone
   | PFailed.
@@ -45,7 +44,7 @@ Record proc := mkProc {
   pr_fasta_stamp : Z;            (* mtime read by check_for_index_files *)
   pr_index : held; pr_asm : held;
   pr_content : Z;                (* FASTA content read by index_fasta_file *)
-  pr_tmp : Z                     (* blocks written to the private temporary *)
+  pr_tmp : Z                     (* time stamp of the private temporary (last write) *)
 }.
 
 Record fs := mkFs {
@@ -61,9 +60,6 @@ Definition set_file (s : fs) (f : cfile) (p : option payload) : fs :=
   | Fai => mkFs (fasta_content s) (fasta_stamp s) p (agp s) (clock s)
   | Agp => mkFs (fasta_content s) (fasta_stamp s) (fai s) p (clock s)
   end.
-
-(* number of blocks a cache file has (abstract; any value >= 1 works) *)
-Definition blocks_of (f : cfile) : Z := match f with Fai => 2 | Agp => 3 end.
 
 (* operations observed in the trace *)
 Inductive fop :=
@@ -132,33 +128,37 @@ Definition step (atomic : bool) (s : fs) (p : proc) (o : fop) : option (fs * pro
       if cfile_eqb f f' then Some (s, with_pc p (PWriteOpen f)) else None
   | PWriteOpen f, OOpenWrite f' =>
       if cfile_eqb f f' then
-        if atomic then Some (s, mkProc (PWriteBlocks f (blocks_of f)) (pr_fasta_stamp p) (pr_index p) (pr_asm p) (pr_content p) 0)
-        else (* truncate in place: visible at once, empty *)
-          Some (set_file s f (Some (mkPayload (pr_content p) 0 (blocks_of f) (clock s))),
-                with_pc p (PWriteBlocks f (blocks_of f)))
-      else None
-  | PWriteBlocks f nleft, OWriteBlock f' =>
-      if cfile_eqb f f' && (0 <? nleft) then
         if atomic then
-          Some (s, mkProc (if nleft =? 1 then PWriteClose f else PWriteBlocks f (nleft - 1))
-                          (pr_fasta_stamp p) (pr_index p) (pr_asm p) (pr_content p) (pr_tmp p + 1))
+          Some (s, mkProc (PWriteBlocks f) (pr_fasta_stamp p) (pr_index p) (pr_asm p) (pr_content p) (clock s))
+        else (* truncate in place: visible at once, empty *)
+          Some (set_file s f (Some (mkPayload (pr_content p) 0 false (clock s))), with_pc p (PWriteBlocks f))
+      else None
+  | PWriteBlocks f, OWriteBlock f' =>
+      if cfile_eqb f f' then
+        if atomic then
+          Some (s, mkProc (PWriteBlocks f) (pr_fasta_stamp p) (pr_index p) (pr_asm p) (pr_content p) (clock s))
         else
           match get_file s f with
           | Some pl =>
-              Some (set_file s f (Some (mkPayload (p_content pl) (p_written pl + 1) (p_total pl) (clock s))),
-                    with_pc p (if nleft =? 1 then PWriteClose f else PWriteBlocks f (nleft - 1)))
-          | None => (* unlinked meanwhile: the writes go to the orphaned inode *)
-              Some (s, with_pc p (if nleft =? 1 then PWriteClose f else PWriteBlocks f (nleft - 1)))
+              Some (set_file s f (Some (mkPayload (p_content pl) (p_written pl + 1) false (clock s))),
+                    with_pc p (PWriteBlocks f))
+          | None => Some (s, p)       (* unlinked meanwhile: the writes go to the orphaned inode *)
           end
       else None
-  | PWriteClose f, OClose f' =>
+  | PWriteBlocks f, OClose f' =>
       if cfile_eqb f f' then
-        Some (s, with_pc p (if atomic then PReplace f else after_write f))
+        if atomic then Some (s, with_pc p (PReplace f))
+        else
+          match get_file s f with
+          | Some pl =>
+              Some (set_file s f (Some (mkPayload (p_content pl) (p_written pl) true (p_stamp pl))),
+                    with_pc p (after_write f))
+          | None => Some (s, with_pc p (after_write f))
+          end
       else None
   | PReplace f, OReplace f' =>
       if cfile_eqb f f' then
-        Some (set_file s f (Some (mkPayload (pr_content p) (blocks_of f) (blocks_of f) (clock s))),
-              with_pc p (after_write f))
+        Some (set_file s f (Some (mkPayload (pr_content p) 0 true (pr_tmp p))), with_pc p (after_write f))
       else None
   | _, _ => None
   end.
